@@ -17,31 +17,38 @@ namespace DC.Spec.AssumedNilReturns
 
 def reviewed : List String := [
   -- returns ast.Expression; nil only when its ARGUMENT is nil (a failed parse passed on by the caller): pure propagation.
-  "parser.Parser.parseImplicitAlias | if expr == nil",
+  -- source text when reviewed: `if expr == nil`
+  "parser.Parser.parseImplicitAlias | if $0:ast.Expression == nil",
   -- returns ast.Expression (untyped nil) for a token that starts no expression; callers test `== nil` (parseExpression,
   -- parseExpressionFrom propagate). Not an error by itself: `SELECT 1 +` is accepted with a nil right operand, which is a
   -- nil INTERFACE field, not a typed nil; Explain prints it (searched: harness C03).
   "parser.Parser.parsePrefixExpression | default",
   -- returns ast.Expression; `left` is the result of parseInfixExpression (the translator does not see it as a pure
   -- parse result because `left` starts as `ast.Expression(lit)`): propagation of the callee's nil.
-  "parser.Parser.parseUnaryMinus | if left == nil",
+  -- source text when reviewed: `if left == nil`
+  "parser.Parser.parseUnaryMinus | if $0:ast.Expression == nil",
   -- returns ast.Expression; nil only when its argument is nil (repair 4502cc7fc): pure propagation.
-  "parser.Parser.wrapWithAlias | if expr == nil",
+  -- source text when reviewed: `if expr == nil`
+  "parser.Parser.wrapWithAlias | if $0:ast.Expression == nil",
   -- returns ast.Statement (untyped nil) for `REPLACE <not TABLE/DICTIONARY>`; parseStatement's caller drops nil
   -- statements (isNilStatement), so no nil statement is returned: `REPLACE` alone yields zero statements, err == nil.
   "parser.Parser.parseReplace | <top>",
   -- returns *ast.DictionaryAttributeDeclaration; the only caller (parseCreateDictionary) appends it only `if attr != nil`.
-  "parser.Parser.parseDictionaryAttribute | if attr.Name == \"\"",
+  -- source text when reviewed: `if attr.Name == ""`
+  "parser.Parser.parseDictionaryAttribute | if $0:*ast.DictionaryAttributeDeclaration.Name == \"\"",
   -- returns *ast.ColumnDeclaration; callers either append only `if col != nil` (CREATE/ATTACH column lists) or store it
   -- in the pointer-typed field AlterCommand.Column (not an interface).
-  "parser.Parser.parseColumnDeclaration | else of if p.currentIs(token.IDENT) || p.current.Token.IsKeyword()",
+  -- source text when reviewed: `else of if p.currentIs(token.IDENT) || p.current.Token.IsKeyword()`
+  "parser.Parser.parseColumnDeclaration | else of if $0:*parser.Parser.currentIs(token.IDENT) || $0:*parser.Parser.current.Token.IsKeyword()",
   -- returns *ast.DataType; stored in pointer-typed `Type *DataType` fields, checked `if paramType != nil`, or (the one
   -- assignment to an ast.Expression variable, `param = p.parseDataType()`) called only under
   -- `p.currentIs(token.IDENT) || p.current.Token.IsKeyword()`, i.e. exactly when this return is not taken.
-  "parser.Parser.parseDataType | if !p.currentIs(token.IDENT) && !p.current.Token.IsKeyword()",
+  -- source text when reviewed: `if !p.currentIs(token.IDENT) && !p.current.Token.IsKeyword()`
+  "parser.Parser.parseDataType | if !$0:*parser.Parser.currentIs(token.IDENT) && !$0:*parser.Parser.current.Token.IsKeyword()",
   -- returns *ast.AlterCommand; both callers in parseAlter test the result (`if cmd != nil` / `if cmd == nil { break }`)
   -- before appending to the pointer-typed slice AlterQuery.Commands.
-  "parser.Parser.parseAlterCommand | else of if upper == \"RESET\"",
+  -- source text when reviewed: `else of if upper == "RESET"`
+  "parser.Parser.parseAlterCommand | else of if $0:string == \"RESET\"",
   "parser.Parser.parseAlterCommand | default"
 ]
 
